@@ -1,6 +1,7 @@
 import RsyncModel.Driver.Util
 import RsyncModel.Driver.MuxOps
 import RsyncModel.Driver.AclOps
+import RsyncModel.Driver.DeltaOps
 open Driver
 
 def dispatch (line : String) : String :=
@@ -11,6 +12,7 @@ def dispatch (line : String) : String :=
   | op :: _ =>
     if op.startsWith "mux." then muxOp fs
     else if op == "acl" then aclOp fs
+    else if ["sum1", "md4", "sumsizes", "gensums", "search", "recvdata"].contains op then deltaOp fs
     else "bad-op"
 
 partial def loop (h : IO.FS.Stream) (out : IO.FS.Stream) : IO Unit := do
